@@ -5,14 +5,20 @@ props = [json.loads(l) for l in open('/verif/properties.jsonl')]
 ids = [p['id'] for p in props]
 
 # id -> (engine, technique, level text, level note, design ref)
-CLAIMED = {
- 'C12': ('E1+E2', 'stateless DFS over thread interleavings (preemption-bounded, HB-state caching) of the real writer; exhaustive operation sequences of the real queue vs slice model',
-         'Every interleaving of 1-2 producers, the writer goroutine / flush timer and a closer on the real writer up to the stated preemption bound, and every queue operation sequence up to the stated depth, are executed on the real code and compared with an order/loss/duplication oracle.',
-         'Scheduling points are sync/atomic/channel/timer operations plus the transport double; data races between points are outside the model.', '2/C12'),
- 'C39': ('E2', 'exhaustive enumeration of all pairs of publication lists (bounded length/offset alphabet) on the real MergePublications against a reference',
-         'Every pair of (recovered, buffered) publication lists up to length 3 over a 4-5 offset alphabet with filtered placeholders and duplicates is evaluated on the real function and compared with an independent reference merge and gap verdict.',
-         'Bounded list length and offset range; publications differ only in offset / placeholder flag.', '2/C39'),
-}
+CLAIMED = {}
+def claim(i, engine, technique, text, note):
+    CLAIMED[i] = (engine, technique, text, note, '2/' + i)
+
+claim('C01', 'E1', 'stateless DFS over interleavings of subscribe / publish / broker-delivery threads of the real node, with delivery faults (drop, duplicate, delay) and history removal as bounded environment deviations',
+      "Every interleaving (up to the stated preemption/deviation bound) of a subscribing client (fresh, recovering, positioning-only, server-side), a publisher and a faulty PUB/SUB delivery thread is executed on the real Node/Client/Hub/MemoryBroker code; the offsets in the client's frame log are checked for strict increase, absence of unexplained gaps and silence after an insufficient-state end.",
+      'One node, one channel, 2-3 concurrent publications, Memory broker; Redis PUB/SUB is represented only by the fault alphabet of the delivery thread.')
+claim('C12', 'E1+E2', 'stateless DFS over thread interleavings (preemption-bounded, HB-state caching) of the real writer; exhaustive operation sequences of the real queue vs slice model',
+      'Every interleaving of 1-2 producers, the writer goroutine / flush timer and a closer on the real writer up to the stated preemption bound, and every queue operation sequence up to the stated depth, are executed on the real code and compared with an order/loss/duplication oracle.',
+      'Scheduling points are sync/atomic/channel/timer operations plus the transport double; data races between points are outside the model.')
+claim('C39', 'E2', 'exhaustive enumeration of all pairs of publication lists (bounded length/offset alphabet) on the real MergePublications against a reference',
+      'Every pair of (recovered, buffered) publication lists up to length 3 over a 4-5 offset alphabet with filtered placeholders and duplicates is evaluated on the real function and compared with an independent reference merge and gap verdict.',
+      'Bounded list length and offset range; publications differ only in offset / placeholder flag.')
+
 NA = {
  'C18': 'needs a Redis server (or faithful emulator) to execute the Redis broker; none exists in the sealed sandbox, so Redis-vs-Memory agreement cannot be explored',
  'C23': 'needs a Redis server (or faithful emulator) to execute the Redis map broker; none exists in the sealed sandbox',
